@@ -2,6 +2,7 @@
 import itertools
 import random
 
+from .. import histprop as H
 from .. import tt, fix
 from ..denote import Den, Builder
 from ..viol import Violation, require
@@ -9,6 +10,8 @@ from ..viol import Violation, require
 ID = 'C03'
 LEVEL = 'exploration'
 RULE = (
+    'S: for the quantification entry points (quantify, exist/forall, apply with a cube and each quantifier alias) every position k of the dynamic-reordering trigger is enumerated as in C09. '
+    'H: Hypothesis histories on used managers (collections, re-used node numbers, swaps; dynamic reordering off and on with a lowered threshold) in which quantify / exist / forall / apply-with-cube are interleaved. '
     'E: every function of n<=3 variables x every subset of declared '
     'variables x {exists, forall} x API form (quantify with set, exist/'
     'forall with list, tuple, generator; apply with the 4 quantifier aliases '
@@ -31,8 +34,30 @@ def subsets(n):
     return [[j for j in range(n) if (m >> j) & 1] for m in range(1 << n)]
 
 
+HIST_ALPHA = {'build': 8, 'apply': 3, 'quantify': 16, 'drop': 6, 'gc': 5, 'swap': 3, 'sift': 1, 'reorder_to': 1, 'cube': 2, 'declare': 1}
+
+
+def _hist_nontrivial(w):
+    return w.labels.get('gc.number_reused', 0) > 0 or bool(w.nontrivial & {'swap', 'sift', 'reorder_to', 'dynreorder'})
+
+
+def _hist_plan(tier, seed):
+    cfgs = [dict(kind='bdd', nmax=4, init_vars=3), dict(kind='autoref', nmax=5, init_vars=4), dict(kind='autoref', nmax=5, init_vars=4, reordering=True, reorder_starts=4), dict(kind='bdd', nmax=5, init_vars=4, reordering=True, reorder_starts=2)]
+    return [dict(kind='history', seed=seed * 1000 + 500 + s, cfgs=cfgs,
+                 examples=1200 if tier == 'thorough' else 200,
+                 min_len=10, max_len=45)
+            for s in range(8 if tier == 'thorough' else 4)]
+
+
 def plan(tier, seed):
     specs = []
+    specs += _hist_plan(tier, seed)
+    # schedule enumeration of the reordering trigger (machinery of C09)
+    # restricted to the quantification entry points
+    for s in range(6 if tier == 'thorough' else 3):
+        specs.append(dict(kind='schedule', seed=seed * 100 + 70 + s,
+                          only=['quantify', 'exist_forall', 'apply_quant'],
+                          examples=240 if tier == 'thorough' else 36))
     for n in (1, 2, 3):
         for order in fix.orders(n):
             for variant in ('fresh', 'used'):
@@ -160,6 +185,13 @@ def run_forms(spec, out):
             bdd.forall(vs, f) if fa else bdd.exist(vs, f)),
         'Function.exist/forall': lambda f, vs, fa: (
             f.forall(*vs) if fa else f.exist(*vs)),
+        'autoref.quantify(generator)': lambda f, vs, fa: bdd.quantify(
+            f, (x for x in vs), fa),
+        'autoref.exist/forall(iter)': lambda f, vs, fa: (
+            bdd.forall(iter(vs), f) if fa else bdd.exist(iter(vs), f)),
+        'autoref.exist/forall(map)': lambda f, vs, fa: (
+            bdd.forall(map(str, vs), f) if fa
+            else bdd.exist(map(str, vs), f)),
     }
     for fname, fn in aforms.items():
         nt = 0
@@ -289,6 +321,11 @@ def run_random(spec, out):
 
 
 def replay_into(case, out):
+    if case.get('kind') == 'history':
+        return H.replay_into(case, out)
+    if case.get('kind') == 'schedule':
+        from . import c09
+        return c09.replay_into(case, out)
     kind = case['kind']
     if kind == 'random':
         out.guard(case, lambda: check_random_case(case))
@@ -309,5 +346,10 @@ def replay_into(case, out):
 
 
 def run(spec, out):
+    if spec['kind'] == 'schedule':
+        from . import c09
+        return c09.run_schedule(spec, out)
+    if spec['kind'] == 'history':
+        return H.run_random(spec, out, HIST_ALPHA, _hist_nontrivial)
     dict(forms=run_forms, n4=run_n4, random=run_random)[spec['kind']](
         spec, out)
